@@ -373,6 +373,21 @@ func runRT(c RTCase) *h.Result {
 	if d := refpath.Same(t1, b1.Any); d != "" {
 		return fail("the native round trip changed the bag: %s", d)
 	}
+	// the whole contents handed to a function that returns its argument (Lisp data and back inside bag-modify)
+	sc.Let("b3", b3)
+	mform := "(bag-modify b3 (lambda (x) x))"
+	if c.W.Send {
+		mform = "(send b3 :modify (lambda (x) x))"
+	}
+	if out = ev.Eval(sc, mform); out.Kind != ev.Value {
+		return fail("%s on the bag %s: %s", mform, refpath.Show(lossy), out)
+	}
+	if d := refpath.Same(lossy, b3.Any); d != "" {
+		return fail("%s on the bag %s leaves %s: %s", mform, refpath.Show(lossy), refpath.Show(b3.Any), d)
+	}
+	if hasRows(c.Doc) {
+		res.Classes = append(res.Classes, "doc:rows")
+	}
 	return res
 }
 
@@ -477,7 +492,7 @@ func genRT(rt *rapid.T) RTCase {
 
 // Op is one operation of a history.
 type Op struct {
-	Kind    string         `json:"kind"` // set get has remove walk
+	Kind    string         `json:"kind"` // set get has remove walk modify (modify: with a function that returns its argument)
 	Path    []Frag         `json:"path"`
 	PS      refpath.PStyle `json:"ps"`
 	PathObj bool           `json:"pathobj,omitempty"` // pass a bag-path object instead of a string
@@ -518,6 +533,15 @@ func opForm(o Op) string {
 			return "(send b :set v p)"
 		}
 		return "(bag-set b v p)"
+	case "modify":
+		tail := ""
+		if o.AsBag {
+			tail = " :as-bag t"
+		}
+		if o.Send {
+			return "(send b :modify (lambda (x) x) p" + tail + ")"
+		}
+		return "(bag-modify b (lambda (x) x) p" + tail + ")"
 	case "walk":
 		tail := ""
 		if o.AsBag {
@@ -765,6 +789,32 @@ func runPaths(c PCase) *h.Result {
 			if w, g := multiset(wants), multiset(got); w != g {
 				return fail(i, "%s on %s: expected the values {%s}, visited {%s}", form, refpath.Show(model), w, g)
 			}
+		case "modify":
+			// the function returns its argument: every denoted value goes to Lisp data and back (or, with
+			// :as-bag t, into a bag and back) and must come back as it was, up to what Lisp's one nil
+			// cannot hold (false and the empty containers) - at the denoted locations only
+			out := ev.Eval(sc, form)
+			if out.Kind == ev.Fault || out.Kind == ev.Partial {
+				return fail(i, "%s: %s", form, out)
+			}
+			if out.Kind == ev.Condition {
+				res.Classes = append(res.Classes, "modify:condition")
+				break // the comparison with the unchanged model follows below
+			}
+			outer := refpath.Outermost(targets)
+			norm := func(tree any) any {
+				if o.AsBag {
+					return tree
+				}
+				return mapAt(tree, outer, flat)
+			}
+			if d := refpath.Same(norm(model), norm(b.Any)); d != "" {
+				return fail(i, "%s with a function that returns its argument on %s: bag now %s: %s", form, refpath.Show(model), refpath.Show(b.Any), d)
+			}
+			if len(outer) > 0 {
+				res.Classes = append(res.Classes, "modify:done")
+			}
+			model = refpath.Clone(b.Any)
 		case "remove":
 			out := ev.Eval(sc, form)
 			exp := model
@@ -875,9 +925,42 @@ func runPaths(c PCase) *h.Result {
 	return res
 }
 
+// flat is refpath.Lossy with the empty containers and false all brought to nil.
+func flat(v any) any { return refpath.Lossy(v) }
+
+// mapAt returns a copy of tree with fn applied to the values at the given locations.
+func mapAt(tree any, locs []refpath.Loc, fn func(any) any) any {
+	keys := map[string]bool{}
+	for _, l := range locs {
+		keys[l.Key()] = true
+	}
+	var walk func(node any, at refpath.Loc) any
+	walk = func(node any, at refpath.Loc) any {
+		if keys[at.Key()] {
+			return fn(node)
+		}
+		switch t := node.(type) {
+		case []any:
+			out := make([]any, len(t))
+			for i, e := range t {
+				out[i] = walk(e, append(at[:len(at):len(at)], i))
+			}
+			return out
+		case map[string]any:
+			out := make(map[string]any, len(t))
+			for k, e := range t {
+				out[k] = walk(e, append(at[:len(at):len(at)], k))
+			}
+			return out
+		}
+		return node
+	}
+	return walk(tree, refpath.Loc{})
+}
+
 func genOp(rt *rapid.T, doc Node) Op {
 	o := Op{
-		Kind:    rapid.SampledFrom([]string{"set", "set", "set", "get", "get", "has", "remove", "walk"}).Draw(rt, "kind"),
+		Kind:    rapid.SampledFrom([]string{"set", "set", "set", "get", "get", "has", "remove", "walk", "modify"}).Draw(rt, "kind"),
 		PS:      genPStyle(rt),
 		PathObj: rapid.IntRange(0, 3).Draw(rt, "pathobj") == 0,
 		Send:    rapid.Bool().Draw(rt, "send"),
@@ -890,6 +973,8 @@ func genOp(rt *rapid.T, doc Node) Op {
 	switch o.Kind {
 	case "get", "walk":
 		o.AsBag = rapid.Bool().Draw(rt, "asbag")
+	case "modify":
+		o.AsBag = rapid.IntRange(0, 3).Draw(rt, "asbag") == 0
 	case "set":
 		o.AsBag = rapid.IntRange(0, 2).Draw(rt, "valbag") == 0
 		v := genDoc(rt, rapid.IntRange(0, 2).Draw(rt, "vdepth"), docOpts{keys: pathKeys[:8], plain: true})
@@ -981,10 +1066,10 @@ var (
 )
 
 func TestC18(t *testing.T) {
-	h.Rule("roundtrip: a generated document (depth <= 5, tables of boundary integers, floats, strings, keys plus random ones) is spelled as JSON or SEN text (3 escape styles, 3 white space styles), " +
+	h.Rule("roundtrip: a generated document (depth <= 5, tables of boundary integers, floats, strings, keys plus random ones, arrays of rows with a string head at 1 in 10 container positions) is spelled as JSON or SEN text (3 escape styles, 3 white space styles), " +
 		"parsed by one of 9 entry points after 0-2 other (mostly invalid) texts, compared with the harness's own reading of the document, written with generated options, parsed again and compared; " +
 		"JSON output is also read with encoding/json; bag-native and back. Non-trivial: depth >= 2 and at least one hard scalar (integer of 16+ digits, any float, string that is empty, non-ASCII, " +
-		"escaped, punctuation or word-like). paths: histories of <= 6 set/get/has/remove/walk operations (function and send forms, string and bag-path) against the reference path evaluator on any-trees; " +
+		"escaped, punctuation or word-like). paths: histories of <= 6 set/get/has/remove/walk/modify(identity function) operations (function and send forms, string and bag-path) against the reference path evaluator on any-trees; " +
 		"non-trivial: a set that returned followed by a get whose targets existed before and are disjoint from the set path. bridge: a generated Go value through SimpleObject and Simplify; " +
 		"non-trivial: nested or not int64/float64/string. Distinct by case JSON.")
 	h.Assume("encoding/json, strconv and math/big are correct")
